@@ -8,6 +8,9 @@ CONSTANTS
   MaxWrites = 1000
   MaxStale = 1000
   Eager = TRUE
+  Kinds = {"frame","frag"}
+  FragFormats = {"f1","f2"}
+  DevCountFramesOnly = FALSE
 INVARIANTS Verdicts Drift
 POSTCONDITION Accepted
 CHECK_DEADLOCK FALSE
